@@ -1338,3 +1338,115 @@ pub fn dump_probes() -> Vec<(&'static str, Scenario)> {
         ("known-F-C06-1-fixture-client-server", Scenario { mode: Mode::ClientServer, ..probe_lost_tail_ack() }),
     ]
 }
+
+// ---------------------------------------------------------------- coverage-guided tier
+
+/// Clamp a byte-decoded scenario (engine::bytesde) into exactly the domain of `strategy()` (sub
+/// `walk`): every field is first mapped into the range of the generator's *raw* draw and then the
+/// same derivation as in `strategy()`'s `prop_map` is applied (fin_by_drop needs a replying side,
+/// slow-reader class, `fit_budget`, black-hole class).  The two draws of the strategy that have
+/// no field of their own (slow-reader class and its parameters) take their entropy from
+/// `cfg.loopback_mtu`, which the strategy fixes at 65536; `mode` and `strict` are forced to the
+/// only values the strategy produces (Wire, false).
+pub fn fuzz_sanitize(sc: &mut Scenario) -> bool {
+    let sel = sc.cfg.loopback_mtu;
+    sc.mode = Mode::Wire;
+    sc.strict = false;
+    // cfg_strategy: MSS 1..=64 | 1460, caps 1..=64 | 65536, T 1..=4, M 1..=5
+    let hdr = if sc.v6 { 60 } else { 40 };
+    let mss = match sc.cfg.mtu % 70 {
+        x @ 0..=63 => x + 1,
+        _ => 1460,
+    };
+    let cap = |c: usize| match c % 72 {
+        x @ 0..=63 => x + 1,
+        _ => 65536,
+    };
+    sc.cfg = Cfg {
+        mtu: hdr + mss,
+        loopback_mtu: 65536,
+        send_cap: cap(sc.cfg.send_cap),
+        recv_cap: cap(sc.cfg.recv_cap),
+        retx_threshold: 1 + sc.cfg.retx_threshold % 4,
+        retx_max: 1 + sc.cfg.retx_max % 5,
+    };
+    // side_strategy
+    for side in [&mut sc.client, &mut sc.server] {
+        side.writes.truncate(3);
+        for w in side.writes.iter_mut() {
+            let x = w.0;
+            w.0 = match x % 16 {
+                0..=9 => 1 + (x / 16) % 12,
+                10..=14 => 13 + (x / 16) % 36,
+                _ => 100 + (x / 16) % 201,
+            };
+            w.1 %= 4;
+        }
+        side.bufs.truncate(2);
+        if side.bufs.is_empty() {
+            side.bufs.push(1024);
+        }
+        for b in side.bufs.iter_mut() {
+            *b = match *b % 36 {
+                x @ 0..=31 => x + 1,
+                _ => 1024,
+            };
+        }
+        side.read_steps.truncate(3);
+        for r in side.read_steps.iter_mut() {
+            r.0 = 1 + r.0 % 8;
+            r.1 %= 4;
+        }
+    }
+    sc.fin_by_drop = sc.fin_by_drop && sc.reply != Reply::None;
+    // plan_strategy (bytesde vectors hold <= 16 elements, inside the generator's 0..48)
+    let hold = |k: u32| Fate::Hold(1 + k % 8);
+    sc.plan.by_id.truncate(47);
+    for f in sc.plan.by_id.iter_mut() {
+        if let Fate::Hold(k) = *f {
+            *f = hold(k);
+        }
+    }
+    sc.plan.by_kind.truncate(3);
+    for (k, n, f) in sc.plan.by_kind.iter_mut() {
+        if *k == Kind::Udp {
+            *k = Kind::Data;
+        }
+        *n %= 4;
+        *f = match *f {
+            Fate::Hold(k) => hold(k),
+            _ => Fate::Drop,
+        };
+    }
+    sc.plan.prio.truncate(47);
+    for p in sc.plan.prio.iter_mut() {
+        *p %= 4;
+    }
+    sc.plan.max_drops %= 6;
+    sc.plan.max_hold %= 13;
+    // beyond-budget class (the generator gives it 1/8; here: Option bit and one more bit)
+    let black = match sc.plan.blackhole.take() {
+        Some((h, from)) if (h >> 1) & 1 == 0 => Some((h % 2, from % 24)),
+        _ => None,
+    };
+    // slow-reader class
+    if sel % 8 == 7 {
+        let server_reads_slowly = (sel >> 3) & 1 == 1;
+        let first = 1 + ((sel >> 4) % 6) as u16;
+        let extra = (sel >> 8) % 7;
+        sc.plan = FatePlan::default();
+        sc.reply = Reply::None;
+        sc.fin_by_drop = false;
+        let pause = ((sc.cfg.retx_max + 2) * sc.cfg.retx_threshold + 2 + extra).min(255) as u8;
+        let fill = (sc.cfg.recv_cap.min(48) + 8) as u32;
+        let (reader, writer) = if server_reads_slowly { (&mut sc.server, &mut sc.client) } else { (&mut sc.client, &mut sc.server) };
+        reader.read_steps = vec![(first, pause)];
+        if writer.writes.iter().map(|w| w.0).sum::<u32>() < fill {
+            writer.writes.push((fill, 0));
+        }
+        return true;
+    }
+    fit_budget(sc);
+    sc.plan.blackhole = black;
+    true
+}
